@@ -184,6 +184,19 @@ def run(replay=None):
     if not replay:
         singles = [[o] for o in ops] + [[rand_data(n)] for n in lens for _ in range(3)]
         scripts += singles
+        # whole scripts whose LENGTH and first byte make them look like a signature or a public key: opcode sequences of
+        # 64 bytes, of 33 bytes starting 02 / 03 (a 2- or 3-byte push first), of 65 bytes starting 04, of 69..74 bytes starting 0x30
+        for total, first in ((64, [81]), (64, [117]), (33, [2, 81, 82]), (33, [3, 81, 82, 83]), (65, [4, 81, 82, 83, 84]),
+                             (69, [48] + [81] * 48), (72, [48] + [82] * 48), (74, [48] + [83] * 48)):
+            body = []
+            if first[0] in (2, 3, 4, 48):
+                body.append(bytes(first[1:]))              # data push of len(first) - 1 bytes: prefix byte = its length
+                used = len(first)
+            else:
+                body.append(first[0])
+                used = 1
+            body += [rng.choice([81, 82, 118, 135]) for _ in range(total - used)]
+            scripts.append(body)
         alphabet = ops[:10] + [1, 2, 20, 33, 71, 75, 76, 256]       # ints < 0 mean: data of that length
         maxlen = 3
         for n in (2, 3):
